@@ -64,6 +64,11 @@ fn inverted(f: &AlFlags) -> AlFlags {
         case_insensitive: Some(!f.eff_ci()),
         swap_greed: Some(!f.eff_swap_greed()),
         ignore_whitespace: f.ignore_whitespace,
+        // the contradicting section gets the other extreme of each limit that is set
+        size_limit: f.size_limit.map(|n| if n == 64 { 10_000_000 } else { 64 }),
+        dfa_size_limit: f.dfa_size_limit.map(|n| if n == 64 { 10_000_000 } else { 64 }),
+        nest_limit: f.nest_limit.map(|n| if n == 3 { 1000 } else { 3 }),
+        unicode: f.unicode.map(|b| !b),
     }
 }
 
@@ -302,7 +307,21 @@ impl Prop for C11 {
                 );
                 return o;
             }
-            Ok(Ok(d)) => d,
+            Ok(Ok(d)) => {
+                // a size limit in force rejects what the same limit makes the regex crate reject
+                if al.flags.size_limit.is_some() {
+                    o.class("size-limit-set");
+                    for r in &al.rules {
+                        if let Err(e) = build_ref(&r.re.reference(&al.flags), &al.flags) {
+                            if e.contains("size limit") {
+                                o.fail("wrong", "C11/flag-not-in-force/size_limit", format!("accepted although size_limit {:?} makes the regex engine reject `{}`: {e}\n{text}", al.flags.size_limit, r.re.written()));
+                                return o;
+                            }
+                        }
+                    }
+                }
+                d
+            }
         };
         // structure
         let rules: Vec<_> = def.iter_rules().collect();
